@@ -6,7 +6,7 @@ RULE = ("random controller configurations (memtype SDR..DDR4, 1:1/1:2/1:4, 2..16
         "saturation/idle/single-bank/row-conflict/direction mixes); a case = one controller cycle of one configuration, all bank "
         "handshakes and DFI phases compared with the model and fed to the specification monitor; distinct by (seed, configuration index)")
 TRUSTED = ["bank interfaces are driven directly (the crossbar is exercised by C01/C05/C06)",
-           "not modelled: cmd_buffer_buffered=True, dynamic rdphase/wrphase signals, tCCD=None"]
+           "not modelled: cmd_buffer_buffered=True, rdphase/wrphase Signals whose value changes at run time (Signals holding a constant are covered), tCCD=None"]
 ASSUMPTIONS = ["geometry has >= 11 address lines (A10 exists), as every module of the library does"]
 
 
